@@ -13,3 +13,10 @@ pub use server::{RenetServer, ServerEvent};
 pub use bytes::Bytes;
 
 pub type ClientId = u64;
+
+/// Verification hooks: read-only views used by an external checking harness.
+/// Compiled only with `--cfg renet_verif`.
+#[cfg(renet_verif)]
+pub mod verif {
+    pub use crate::packet::{Packet, SerializationError, Slice, SLICE_SIZE};
+}
